@@ -567,6 +567,8 @@ func (q *Query) text(p *prep, insts []*sx.T, withQuants bool, seed int) string {
 						vals[s.L[2].String()] = s.L[2]
 					case strings.HasPrefix(s.Head(), "deser_") && len(s.L) == 2 && strings.Contains(s.L[1].String(), "(select store0 "):
 						vals[s.String()] = s
+					case s.Head() == "b2i" && len(s.L) == 2 && strings.Contains(s.L[1].String(), "(select store0 "):
+						vals[s.String()] = s
 					case s.Head() == "W" && len(s.L) == 2:
 						vals[s.String()] = s
 						vals[s.L[1].String()] = s.L[1]
